@@ -468,6 +468,10 @@ func formatLayers(tier string) []Layer {
 		for _, s := range []string{"5", "15", "25", "95", "995", "9995", "99995", "4999", "5001", "50", "149", "151", "999999", "1234567890123456789012345678901234567891", "99999999999999999999999999999999999999995", "1000000000000000000000000000000000000000005", "50000000000000000001", "5000000000000000000000000000000000000003", "500000000000000000000000000000000000000000000000000000000007", "49999999999999999999999", "5000000000000000000", "50000000000000000000000000000000000000000000000000000000001"} {
 			base = append(base, mkCoef(false, mustInt(s), 0, uint32(len(s))+2, 0))
 		}
+		// mantissas with low / interior zero words (as exact quotients, products and square roots have)
+		for _, v := range [][]uint64{{0, BW / 4}, {0, 0, BW / 2}, {0, 3, BW / 10}, {0, 0, 0, 123 * (BW / 1000)}, {7, 0, BW - 1}} {
+			base = append(base, mkWords(false, v, 0, uint32(len(v)*DW)+3, 0))
+		}
 		exps := []int64{-8, -7, -6, -5, -4, -3, -2, -1, 0, 1, 2, 3, 4, 5, 6, 7, 8, 9, 10, 11, 21, 22, 40, 99, 100, 101, 102, -98, -99, -100, -101, 1000, 1001, -999, -1000}
 		precs := []int{-1, 0, 1, 2, 3, 4, 5, 6, 7, 8, 20, 40}
 		layers = append(layers, Layer{
